@@ -232,18 +232,20 @@ def Target.seq : Target → List Char
   | .chunk _ _ s => s
   | .chrom s => s
 
-/-- `AbstractInterval.liftover_location_to_seq_chunk_parent(location, target)` for a location whose ancestors are
-    `ch` (both chromosome Parents carry the same id here, so the `require_parents_equal_…` gate is passed) -/
-def liftoverToTarget (c : Location) (ch : Chain) (t : Target) : R Location := do
+/-- first half of `liftover_location_to_seq_chunk_parent`: a location below a chunk goes back to chromosome
+    coordinates (both chromosome Parents carry the same id here, so the `require_parents_equal_…` gate is passed) -/
+def liftUp (c : Location) (ch : Chain) : R Location :=
   -- `location.has_ancestor_of_type(SEQUENCE_CHUNK)`; an EmptyLocation has no parent at all
-  let loc ←
-    if c != .empty && hasAncestorOfType tSeqChunk ch then do
-      if ¬ hasAncestorOfType tChromosome ch then throw .NoSuchAncestor
+  if c != .empty && hasAncestorOfType tSeqChunk ch then
+    if ¬ hasAncestorOfType tChromosome ch then throw .NoSuchAncestor
+    else do
       let up ← liftToType tChromosome c ch
       -- `.reset_parent(target.parent)`: that Parent carries no sequence (chunk) or is None (chromosome)
       pure up.1
-    else pure c
-  match t with
+  else pure c
+
+/-- second half: onto the chunk, or onto the chromosome as it is -/
+def placeOnTarget (loc : Location) : Target → R Location
   | .chunk w st sq => do
       -- the target has a sequence_chunk ancestor (itself) and a chromosome above it
       let rel ← chunkDown loc w st
@@ -256,30 +258,52 @@ def liftoverToTarget (c : Location) (ch : Chain) (t : Target) : R Location := do
       else if ¬ fitsSeq loc sq.length then throw .InvalidPosition
       else pure loc
 
+/-- `AbstractInterval.liftover_location_to_seq_chunk_parent(location, target)` for a location whose ancestors
+    are `ch` -/
+def liftoverToTarget (c : Location) (ch : Chain) (t : Target) : R Location := do
+  let loc ← liftUp c ch
+  placeOnTarget loc t
+
+/-- the chunk Parent (`seq_chunk_to_parent`; its id spells out the window, which nothing here looks at) -/
+def chunkLevel (seqA : List Char) (pl : Option Location) : Level := ⟨['c','h','r',':','A'], tSeqChunk, some seqA, pl⟩
+/-- the chromosome Parent of a chunk: no sequence, holds the chunk's window as child location -/
+def chrLevel (w1 : Blk) (s1 : Strand) : Level := ⟨['c','h','r'], tChromosome, none, some (.single w1 s1)⟩
+/-- the spliced sequence on the chunk -/
+def txLevel (txSeq : List Char) : Level := ⟨['t','x'], tTranscript, some txSeq, none⟩
+
+/-- the ancestors of the child and the length of the sequence it is constructed on -/
+def buildLevels (seqA : List Char) (w1 : Blk) (s1 : Strand) (tx : Option Location) : R (Chain × Nat) :=
+  match tx with
+  | none => pure ([chunkLevel seqA none, chrLevel w1 s1], seqA.length)
+  | some t =>
+      -- `chunk_a.reset_location(TXLOC)`: `Parent.__init__` refuses a placement that ends beyond the chunk
+      if t == .empty then throw .EmptyLocation
+      else if ¬ fitsSeq t seqA.length then throw .InvalidPosition
+      else do
+        -- the harness reads the spliced sequence off the chunk
+        let txSeq ← extractSeq seqA t
+        pure ([txLevel txSeq, chunkLevel seqA (some t), chrLevel w1 s1], txSeq.length)
+
+def buildTarget (G : List Char) : Option (Blk × Strand) → R Target
+  | some (w2, s2) => do let sq ← mkChunk G w2 s2; pure (.chunk w2 s2 sq)
+  | none => pure (.chrom G)
+
+/-- `str(result.extract_sequence())` (nothing to read for an EmptyLocation) -/
+def finishRelocate (t : Target) (m : Location) : R (Location × List Char) :=
+  if m == .empty then pure (m, [])
+  else do
+    let sq ← extractSeq t.seq m
+    pure (m, sq)
+
 /-- the whole `relocate` operation of the harness: hierarchy construction, the call, the extraction -/
 def relocate (G : List Char) (w1 : Blk) (s1 : Strand) (tx : Option Location) (c : Location)
     (tgt : Option (Blk × Strand)) : R (Location × List Char) := do
   let seqA ← mkChunk G w1 s1
-  let chunkLevel (pl : Option Location) : Level := ⟨['c','h','r',':','A'], tSeqChunk, some seqA, pl⟩
-  let chrLevel : Level := ⟨['c','h','r'], tChromosome, none, some (.single w1 s1)⟩
-  let (ch, len0) ← (match tx with
-    | none => pure ([chunkLevel none, chrLevel], seqA.length)
-    | some t => do
-        -- `chunk_a.reset_location(TXLOC)`: `Parent.__init__` refuses a placement that ends beyond the chunk
-        if t == .empty then throw .EmptyLocation
-        if ¬ fitsSeq t seqA.length then throw .InvalidPosition
-        let txSeq ← extractSeq seqA t
-        pure ([⟨['t','x'], tTranscript, some txSeq, none⟩, chunkLevel (some t), chrLevel], txSeq.length)
-    : R (Chain × Nat))
+  let lv ← buildLevels seqA w1 s1 tx
   -- the child is constructed with its parent (which carries sequence)
-  if ¬ fitsSeq c len0 then throw .InvalidPosition
-  let target ← match tgt with
-    | some (w2, s2) => do let sq ← mkChunk G w2 s2; pure (Target.chunk w2 s2 sq)
-    | none => pure (Target.chrom G)
-  let m ← liftoverToTarget c ch target
-  if m == .empty then pure (m, [])
-  else do
-    let sq ← extractSeq target.seq m
-    pure (m, sq)
+  if ¬ fitsSeq c lv.2 then throw .InvalidPosition
+  let target ← buildTarget G tgt
+  let m ← liftoverToTarget c lv.1 target
+  finishRelocate target m
 
 end BioCantor.Model
